@@ -121,9 +121,9 @@ def model_cases(objs_data):
                                                                                    ' '.join(fl(v) for v in vals), fl(want)))
         names.append('c%d' % k)
     lines.append('Eval vm_compute in %s.' % coq_list(names))
-    path = os.path.join(COQ, 'gprops', 'K_rsing_cases.v')
+    path = os.path.join(COQ, 'gprops', 'K_rsing_cases_%d.v' % os.getpid())
     open(path, 'w').write('\n'.join(lines) + '\n')
-    p = subprocess.run(['coqc', '-Q', 'theories', 'QSC', '-Q', 'gprops', 'QSCGProps', 'gprops/K_rsing_cases.v'], cwd=COQ, capture_output=True, text=True, timeout=900)
+    p = subprocess.run(['coqc', '-Q', 'theories', 'QSC', '-Q', 'gprops', 'QSCGProps', 'gprops/K_rsing_cases_%d.v' % os.getpid()], cwd=COQ, capture_output=True, text=True, timeout=900)
     m = re.search(r'=\s*\[(.*?)\]\s*:\s*list bool', p.stdout, flags=re.S)
     if p.returncode != 0 or not m:
         return None, (p.stdout + p.stderr)[-500:]
